@@ -131,6 +131,15 @@ func (c *Console) WaitIdle() {
 	c.mu.Unlock()
 }
 
+// WaitClosed blocks until Close has been called on the console.
+func (c *Console) WaitClosed() {
+	c.mu.Lock()
+	for c.Closes == 0 {
+		c.cond.Wait()
+	}
+	c.mu.Unlock()
+}
+
 // Idle reports whether a reader is parked with nothing to read.
 func (c *Console) Idle() bool {
 	c.mu.Lock()
